@@ -22,9 +22,11 @@ package main
 
 import (
 	"bytes"
+	"encoding/json"
 	"fmt"
 	"image"
 	"os"
+	"path/filepath"
 	"runtime"
 	"strconv"
 	"strings"
@@ -36,6 +38,7 @@ import (
 func init() {
 	suites["c01full"] = suiteC01Full
 	replayers["c01full"] = replayC01Full
+	replayers["c07alph"] = replayC07Alph
 }
 
 type c01Case struct {
@@ -91,8 +94,7 @@ func c01Gen(seed uint64, tier string, i int) c01Case {
 		thr := DrawThresholdCases(seed, 0x0c01, nThr, ThresholdFilter{MaxPixels: 140000, MinValue: 200})
 		k := i - n - nBig
 		if k >= len(thr) {
-			c.err = fmt.Errorf("no such case")
-			return c
+			return c01Fixed(k - len(thr))
 		}
 		tc := thr[k]
 		kind := r.Intn(NumCheapClasses)
@@ -144,6 +146,87 @@ func c01Gen(seed uint64, tier string, i int) c01Case {
 	return c
 }
 
+// ---- fixed regression cases (both tiers): defect D15, "unused trailing histogram" ----
+//
+// The 96x96 noise picture with gradient alpha of corpus/C01/d15_unused_trailing_histogram_replay.json:
+// before /repo a7369f2, Quality 100 with Method 5 or 6 made GetHistoImageSymbols return two histograms
+// with every tile mapped to the first; encodeStream wrote two prefix-code groups, the decoder read
+// max(symbol)+1 = one, and Encode + Decode succeeded with every pixel wrong. Method {5,6} x Exact x
+// {NRGBA, RGBA64} = 8 cases.
+const c01NumFixed = 8
+
+var (
+	c01D15Once sync.Once
+	c01D15Img  *image.NRGBA
+)
+
+func c01D15Picture() *image.NRGBA {
+	c01D15Once.Do(func() {
+		b, err := os.ReadFile(filepath.Join(CorpusDir, "C01", "d15_unused_trailing_histogram_replay.json"))
+		if err != nil {
+			return
+		}
+		var rp struct {
+			Input struct {
+				Line string `json:"line"`
+			} `json:"input"`
+		}
+		if json.Unmarshal(b, &rp) != nil {
+			return
+		}
+		f := strings.Fields(rp.Input.Line)
+		if len(f) != 9 || f[1] != "96" || f[2] != "96" {
+			return
+		}
+		px := unhx(f[8])
+		if len(px) != 96*96*4 {
+			return
+		}
+		im := image.NewNRGBA(image.Rect(0, 0, 96, 96))
+		for i := 0; i+3 < len(px); i += 4 {
+			im.Pix[i], im.Pix[i+1], im.Pix[i+2], im.Pix[i+3] = px[i+1], px[i+2], px[i+3], px[i]
+		}
+		c01D15Img = im
+	})
+	return c01D15Img
+}
+
+func c01Fixed(k int) c01Case {
+	var c c01Case
+	base := c01D15Picture()
+	if k < 0 || k >= c01NumFixed {
+		c.err = fmt.Errorf("no such case")
+		return c
+	}
+	if base == nil {
+		c.err = fmt.Errorf("corpus/C01/d15_unused_trailing_histogram_replay.json missing or unreadable")
+		return c
+	}
+	o := &webp.EncoderOptions{Lossless: true, Quality: 100, Method: 5 + k%2, Exact: (k/2)%2 == 0}
+	var img image.Image = base
+	tname := "NRGBA"
+	if k/4 == 1 {
+		img, tname = asTypeAt(NewRNG(1, uint64(k)), base, 7, image.Point{})
+	}
+	c.o, c.tname, c.w, c.h = o, tname, 96, 96
+	c.cls = "fixed:d15-unused-trailing-histogram"
+	c.desc = fmt.Sprintf("96x96/noise/gradient (corpus C01 D15) type=%s q=100 m=%d exact=%v meta=false", tname, o.Method, o.Exact)
+	file, err := encodeBytes(img, o)
+	if err != nil {
+		c.err = err
+		return c
+	}
+	px, flat := c01Pixels(img)
+	c.flat = flat
+	c.img, c.file = img, file
+	ex := 0
+	if o.Exact {
+		ex = 1
+	}
+	c.line = fmt.Sprintf("c01full %d %d %d - - - %s %s", c.w, c.h, ex, hx(file), px)
+	return c
+}
+
 func c01Counts(tier string) (n, nBig, nThr int) {
 	if tier == "thorough" {
 		return 6000, 24, 1 << 20
@@ -170,10 +253,10 @@ func c01Fields(l string) map[string]string {
 }
 
 func suiteC01Full(rep *Report) error {
-	rep.Rule = "real webp.Encode(Lossless) outputs over image class x alpha class x size (1x1, 1xN, Nx1, 2^k+-1, ragged, 128x40, 40x130; a few >= 100000 pixels; a leg of sizes just below/on/above the numeric thresholds of the code - thresholds.go - with cheap content) x Go image type {NRGBA,RGBA,Gray,Paletted,NRGBA64,generic,subimage,RGBA64} x Quality {0,10,24,25,49,50,74,75,89,90,100} x Method 0..6 (every 7th case walks the full Method x Quality grid) x Exact x metadata {none, ICC+EXIF, ICC+EXIF+XMP}; for each file the Lean driver reconstructs the stream plan from the bytes and evaluates the hypotheses of Props/C01Full.encode_decode_roundtrip (model emitter+container reproduce the file; plan valid; plan stands for norm(Exact, source pixels)); non-trivial = picture has >= 2 distinct pixels; distinct = hash of (description, file)"
+	rep.Rule = "real webp.Encode(Lossless) outputs over image class x alpha class x size (1x1, 1xN, Nx1, 2^k+-1, ragged, 128x40, 40x130; a few >= 100000 pixels; a leg of sizes just below/on/above the numeric thresholds of the code - thresholds.go - with cheap content) x Go image type {NRGBA,RGBA,Gray,Paletted,NRGBA64,generic,subimage,RGBA64} x Quality {0,10,24,25,49,50,74,75,89,90,100} x Method 0..6 (every 7th case walks the full Method x Quality grid; every 6th random case is a remap leg: busy content, Quality >= 90, Method 4..6) x Exact x metadata {none, ICC+EXIF, ICC+EXIF+XMP}; plus 8 fixed regression cases (defect D15: the 96x96 noise/gradient-alpha picture of corpus/C01 at Quality 100, Method 5/6, Exact on/off, NRGBA and RGBA64); for each file the Lean driver reconstructs the stream plan from the bytes and evaluates the hypotheses of Props/C01Full.encode_decode_roundtrip (model emitter+container reproduce the file; plan valid; plan stands for norm(Exact, source pixels)); plus leg c07alph: real ALPH chunks of lossy Encode (AlphaQuality 100, AlphaFiltering -1..2, Method 0..6, all alpha classes) - the plan is reconstructed from alphaVP8LStream(payload) and the hypotheses of Props/C07Lossless.alph_certificate_implies_roundtrip are checked; non-trivial = picture has >= 2 distinct pixels (c07alph: lossless method chosen); distinct = hash of (description, file)"
 	n, nBig, nThr := c01Counts(rep.Tier)
 	thr := DrawThresholdCases(rep.Seed, 0x0c01, nThr, ThresholdFilter{MaxPixels: 140000, MinValue: 200})
-	total := n + nBig + len(thr)
+	total := n + nBig + len(thr) + c01NumFixed
 	const batch = 256
 	for lo := 0; lo < total; lo += batch {
 		hi := lo + batch
@@ -287,7 +370,163 @@ func suiteC01Full(rep *Report) error {
 			}
 		}
 	}
+	return c07Leg(rep)
+}
+
+// ---- leg "c07alph": the certificate for real ALPH chunks (property C07 <- C01) ----
+//
+// Lossy Encode of a picture with transparency stores the alpha plane in an ALPH chunk; with the
+// lossless method the chunk is a VP8L stream of the filtered, green-embedded plane WITHOUT its five
+// header bytes. The driver rebuilds the stream as DecodeAlpha does (alphaVP8LStream), reconstructs the
+// plan and checks (payload = stream minus header, validPlanFor for the filtered plane) - the hypotheses
+// of Props/C07Lossless.alph_certificate_implies_roundtrip. AlphaQuality is 100 (no level quantisation:
+// the stored plane is the source plane).
+type c07Case struct {
+	desc, line string
+	filt, meth int
+	err        error
+	skip       bool
+}
+
+var c07Sizes = [][2]int{{1, 1}, {2, 3}, {7, 8}, {16, 16}, {17, 33}, {33, 17}, {64, 48}, {96, 96}, {128, 40}, {1, 40}, {40, 1}}
+
+func c07Gen(seed uint64, i int) c07Case {
+	r := NewRNG(seed, 0xa1f0_0000+uint64(i))
+	var c c07Case
+	sz := c07Sizes[r.Intn(len(c07Sizes))]
+	cls := r.Intn(NumImgClasses)
+	acls := 1 + r.Intn(NumAlphaClasses-1) // not opaque
+	base := GenImage(r, sz[0], sz[1], cls, acls)
+	img, tname := asType(r, base, []int{0, 0, 1, 4, 5, 6, 7}[r.Intn(7)])
+	o := &webp.EncoderOptions{Lossless: false, Quality: float32(r.Intn(101)), Method: r.Intn(7), Exact: r.Bool(),
+		AlphaCompression: 1, AlphaFiltering: []int{-1, 0, 1, 2}[r.Intn(4)], AlphaQuality: 100}
+	c.filt, c.meth = o.AlphaFiltering, o.Method
+	c.desc = fmt.Sprintf("%s type=%s lossy q=%v m=%d alphaFiltering=%d", imgDesc(sz[0], sz[1], cls, acls), tname, o.Quality, o.Method, o.AlphaFiltering)
+	file, err := encodeBytes(img, o)
+	if err != nil {
+		c.err = err
+		return c
+	}
+	cs, e := walkRIFF(file)
+	if e != "" {
+		c.err = fmt.Errorf("walkRIFF: %s", e)
+		return c
+	}
+	var alph []byte
+	for _, ch := range cs {
+		if ch.tag == "ALPH" {
+			alph = ch.payload
+		}
+	}
+	want := expectedNRGBA(img)
+	if alph == nil {
+		c.skip = true // the picture is opaque as seen through this image type (e.g. alpha all 255 after conversion)
+		return c
+	}
+	plane := make([]byte, 0, len(want.Pix)/4)
+	for k := 3; k < len(want.Pix); k += 4 {
+		plane = append(plane, want.Pix[k])
+	}
+	c.line = fmt.Sprintf("c07alph %d %d %s %s", sz[0], sz[1], hx(alph), hx(plane))
+	return c
+}
+
+func c07Leg(rep *Report) error {
+	n := 120
+	if rep.Tier == "thorough" {
+		n = 2500
+	}
+	cases := make([]c07Case, n)
+	pms := make([]string, n)
+	var wg sync.WaitGroup
+	nw := runtime.NumCPU()
+	for wk := 0; wk < nw; wk++ {
+		wg.Add(1)
+		go func(wk int) {
+			defer wg.Done()
+			for i := wk; i < n; i += nw {
+				_, pms[i] = guard(func() string { cases[i] = c07Gen(rep.Seed, i); return "" })
+			}
+		}(wk)
+	}
+	wg.Wait()
+	var lines []string
+	var idx []int
+	for i := range cases {
+		c := &cases[i]
+		in := map[string]any{"op": "c07alph", "case": i, "seed": rep.Seed}
+		switch {
+		case pms[i] != "":
+			rep.Add(Finding{Kind: "property", Property: "C07", Signature: "c07alph:encode-panic", Detail: c.desc + ": " + pms[i], Input: in})
+		case c.err != nil:
+			rep.Add(Finding{Kind: "property", Property: "C07", Signature: "c07alph:encode-error", Detail: c.desc + ": " + c.err.Error(), Input: in})
+		case c.skip:
+			rep.Count("c07alph:no-ALPH-chunk (opaque through this image type)")
+		default:
+			lines = append(lines, c.line)
+			idx = append(idx, i)
+		}
+	}
+	lean, err := RunDriver(lines)
+	if err != nil {
+		return err
+	}
+	for k, l := range lean {
+		i := idx[k]
+		c := &cases[i]
+		in := map[string]any{"op": "c07alph", "case": i, "seed": rep.Seed, "desc": c.desc}
+		if len(c.line) < 6000 {
+			in["line"] = c.line
+		}
+		f := c01Fields(l)
+		rep.Count("c07alph:method=" + f["method"])
+		rep.Count("c07alph:filter=" + f["filter"])
+		rep.Count(fmt.Sprintf("c07alph:alphaFiltering=%d", c.filt))
+		switch {
+		case !strings.HasPrefix(l, "ok "):
+			rep.Add(Finding{Kind: "correspondence", Property: "C07", Signature: "c07alph-model:" + strings.ReplaceAll(l, " ", "-"),
+				Detail: fmt.Sprintf("%s: the plan of a real ALPH chunk cannot be reconstructed: lean=%q", c.desc, short(l, 120)), Input: in})
+		case f["method"] != "1":
+			// raw chunk: Props/C07.alpha_chunk_roundtrip_raw needs no certificate
+		case f["payload"] != "1":
+			rep.Add(Finding{Kind: "correspondence", Property: "C07", Signature: "c07alph-model:emitter",
+				Detail: fmt.Sprintf("%s: the model emitter fed with the reconstructed plan does not reproduce the ALPH payload: %s", c.desc, l), Input: in})
+		case f["valid"] != "1":
+			rep.Add(Finding{Kind: "property", Property: "C07", Signature: "c07alph:certificate-fails",
+				Detail: fmt.Sprintf("%s: the ALPH payload is not a valid plan for the filtered, green-embedded source plane: %s", c.desc, l), Input: in})
+		default:
+			rep.Count("c07alph:plan:transforms=" + f["xf"])
+			rep.Count("c07alph:plan:cacheBits=" + f["cb"])
+		}
+		rep.Eval(f["method"] == "1", []byte(c.desc+"|"+short(c.line, 4000)))
+	}
 	return nil
+}
+
+func replayC07Alph(in map[string]any) int {
+	line, _ := in["line"].(string)
+	if line == "" {
+		seed, _ := in["seed"].(float64)
+		ci, _ := in["case"].(float64)
+		c := c07Gen(uint64(seed), int(ci))
+		if c.err != nil || c.skip {
+			fmt.Println("cannot regenerate:", c.err, c.skip)
+			return 2
+		}
+		fmt.Println("case:", c.desc)
+		line = c.line
+	}
+	lean, err := RunDriver([]string{line})
+	if err != nil {
+		fmt.Println(err)
+		return 2
+	}
+	fmt.Println("lean:", short(lean[0], 400))
+	f := c01Fields(lean[0])
+	if !strings.HasPrefix(lean[0], "ok ") || (f["method"] == "1" && (f["payload"] != "1" || f["valid"] != "1")) {
+		return 1
+	}
+	return 0
 }
 
 // c01Arbiter re-creates case i, decodes the file with the real decoder and compares with the source
